@@ -12,10 +12,12 @@ package ldiff
 //@ def rper(from, to, df) = ite(((to - from) % df + 1) % df == 0, (to - from) / df + 1, (to - from) / df)
 //
 //@ func genTupleRanges
+//@   modifies nothing
 //@   requires from <= to
 //@   requires 2 <= divideFactor && divideFactor <= 1048576
 //@   requires to - from >= divideFactor - 1
 //@   ensures [len]        len(prepare) == divideFactor
+//@   ensures [fresh_result] fresh(prepare)
 //@   ensures [first]      prepare[0].from == from
 //@   ensures [last]       prepare[divideFactor - 1].to == to
 //@   ensures [contiguous] forall k int :: 0 <= k && k < divideFactor - 1 ==> prepare[k+1].from == prepare[k].to + 1
@@ -30,6 +32,8 @@ package ldiff
 //@     invariant i < divideFactor ==> j == from + i * before(perRange)
 //@     invariant i == divideFactor ==> j == wrap64(to + 1)
 //@     invariant i > 0 ==> prepare[0].from == from
+//@     invariant i > 0 ==> fresh(prepare)
+//@     invariant i == 0 ==> cap(prepare) == 0
 //@     invariant i > 0 ==> wrap64(prepare[i-1].to + 1) == j
 //@     invariant i > 0 ==> prepare[i-1].to <= to
 //@     invariant i == divideFactor ==> prepare[i-1].to == to
@@ -46,6 +50,7 @@ package ldiff
 // contains elHash (same closed form), in particular bucket <= divideFactor-1.
 //
 //@ func (*hashRanges).getBottomRange
+//@   modifies nothing
 //@   requires h != nil && rng != nil
 //@   requires 2 <= h.divideFactor && h.divideFactor <= 1048576
 //@   requires rng.from <= elHash && elHash <= rng.to
@@ -55,3 +60,106 @@ package ldiff
 //@   ensures [is_subrange_from] tuple.from == rng.from + bucket * rper(rng.from, rng.to, h.divideFactor)
 //@   ensures [is_subrange_to]   (bucket < h.divideFactor - 1 ==> tuple.to == rng.from + (bucket + 1) * rper(rng.from, rng.to, h.divideFactor) - 1) && (bucket == h.divideFactor - 1 ==> tuple.to == rng.to)
 //@   ensures [result_is_lookup] result == h.ranges[tuple] || (result == nil && !(tuple in h.ranges))
+
+// ---------------------------------------------------------------------------------------------
+// C07: one comparison step of the diff.  compareResults either (a) skips the range - allowed only
+// when the two answers prove the ranges equal: same non-empty hash, or both sides empty; (b) hands
+// two COMPLETE element lists of the range to the element comparison; or (c) schedules a refinement
+// that covers the range exactly (the whole range with elements requested, or the exact partition of
+// genTupleRanges).  An empty hash proves nothing: it is the answer both for an empty range and for a
+// range the answering side does not track (its elements are listed instead).
+//@ ghost cmpCalls Int stable
+//@ ghost cmpMy Slice stable
+//@ ghost cmpOther Slice stable
+//@ ghost grElements Bool stable
+//@ ghost grFrom Int stable
+//@ ghost grTo Int stable
+//@ ghost grRes Slice stable
+//@ func field diffCtx.compareFunc
+//@   modifies fields diffCtx.newIds diffCtx.changedIds diffCtx.theirChangedIds diffCtx.removedIds
+//@   modifies kinds string
+//@   sets cmpCalls = cmpCalls + 1
+//@   sets cmpMy = arg2
+//@   sets cmpOther = arg3
+//@ func (*diff).getRange
+//@   trusted
+//@   modifies nothing
+//@   sets grElements = r.Elements
+//@   sets grFrom = r.From
+//@   sets grTo = r.To
+//@   sets grRes = result.Elements
+//@ func (*diff).compareResults
+//@   requires d != nil && dctx != nil
+//@   assumes dctx.compareFunc != nil
+//@   assumes 2 <= d.divideFactor && d.divideFactor <= 1048576 && r.From <= r.To && r.To - r.From >= d.divideFactor - 1
+//@   ensures [skip_only_when_proved_equal] cmpCalls == old(cmpCalls) && len(dctx.prepare) == old(len(dctx.prepare)) ==> bytesEq(myRes.Hash, otherRes.Hash) && (len(myRes.Hash) != 0 || (myRes.Count == 0 && otherRes.Count == 0))
+//@   ensures [at_most_one_comparison] cmpCalls <= old(cmpCalls) + 1 && (cmpCalls > old(cmpCalls) ==> len(dctx.prepare) == old(len(dctx.prepare)))
+//@   ensures [compares_complete_lists] cmpCalls > old(cmpCalls) ==> cmpOther == otherRes.Elements && len(otherRes.Elements) == otherRes.Count && ((cmpMy == myRes.Elements && len(myRes.Elements) == myRes.Count) || (cmpMy == grRes && grElements && grFrom == r.From && grTo == r.To))
+//@   ensures [refinement_is_one_of_two] len(dctx.prepare) > old(len(dctx.prepare)) ==> len(dctx.prepare) == old(len(dctx.prepare)) + 1 || len(dctx.prepare) == old(len(dctx.prepare)) + d.divideFactor
+//@   ensures [whole_range_with_elements] len(dctx.prepare) == old(len(dctx.prepare)) + 1 ==> dctx.prepare[old(len(dctx.prepare))].From == r.From && dctx.prepare[old(len(dctx.prepare))].To == r.To && dctx.prepare[old(len(dctx.prepare))].Elements
+//@   ensures [partition_first] len(dctx.prepare) == old(len(dctx.prepare)) + d.divideFactor ==> dctx.prepare[old(len(dctx.prepare))].From == r.From
+//@   ensures [partition_last] len(dctx.prepare) == old(len(dctx.prepare)) + d.divideFactor ==> dctx.prepare[len(dctx.prepare) - 1].To == r.To
+//@   ensures [partition_contiguous] len(dctx.prepare) == old(len(dctx.prepare)) + d.divideFactor ==> (forall k int :: old(len(dctx.prepare)) <= k && k < len(dctx.prepare) - 1 ==> dctx.prepare[k+1].From == dctx.prepare[k].To + 1)
+//@   loop 0:
+//@     invariant -1 <= rangeindex && rangeindex < len(rangeTuples) && len(rangeTuples) == d.divideFactor
+//@     invariant len(dctx.prepare) == old(len(dctx.prepare)) + rangeindex + 1 && cmpCalls == old(cmpCalls)
+//@     invariant rootof(rangeTuples) != rootof(dctx.prepare)
+//@     invariant rangeTuples[0].from == r.From && rangeTuples[d.divideFactor - 1].to == r.To && (forall k int :: 0 <= k && k < d.divideFactor - 1 ==> rangeTuples[k+1].from == rangeTuples[k].to + 1)
+//@     invariant forall k int :: 0 <= k && k <= rangeindex ==> dctx.prepare[old(len(dctx.prepare)) + k].From == rangeTuples[k].from && dctx.prepare[old(len(dctx.prepare)) + k].To == rangeTuples[k].to
+
+// ---------------------------------------------------------------------------------------------
+// C08: the shape of the range tree - and with it every advertised hash - is a function of the
+// contents.  Three local facts carry that: (1) the element counts of the range tree change exactly
+// with the contents of the skip list (conservation: one +1 per inserted entry, one -1 per removed
+// entry, an update is a remove followed by an insert); (2) addElement divides the range it ends in as
+// soon as its count exceeds the threshold; (3) removeElement merges every divided ancestor that fell
+// back to the threshold.  The skip list is a dependency: Remove reports whether the key was present,
+// Set after a Remove of the same key inserts exactly one entry (assumed).
+//@ ghost rangeNet Int stable
+//@ ghost slNet Int stable
+//@ package github.com/huandu/skiplist
+//@ func (*SkipList).Remove
+//@   modifies nothing
+//@   sets slNet = slNet - ite(result != nil, 1, 0)
+//@ func (*SkipList).Set
+//@   modifies nothing
+//@   sets slNet = slNet + 1
+//@ package github.com/cespare/xxhash
+//@ func Sum64
+//@   modifies nothing
+//@ package github.com/anyproto/any-sync/app/ldiff
+//@ func (*hashRanges).recalculateHashes
+//@   trusted
+//@   modifies fields hashRange.hash hashRange.elements
+//@   modifies kinds map:map[*ldiff.hashRange]struct{} uint8
+//@ func (*hashRanges).makeBottomRanges
+//@   trusted
+//@   modifies fields hashRange.isDivided
+//@   modifies kinds map:map[*ldiff.hashRange]struct{} map:map[ldiff.rangeTuple]*ldiff.hashRange
+//@   ensures old(rng.isDivided) ==> rng.isDivided
+
+//@ func (*hashRanges).addElement
+//@   assumes h != nil && h.topRange != nil
+//@   modifies fields hashRange.elements hashRange.isDivided
+//@   modifies kinds map:map[*ldiff.hashRange]struct{} map:map[ldiff.rangeTuple]*ldiff.hashRange
+//@   sets rangeNet = rangeNet + 1
+//@   ensures [split_above_threshold] rng.elements > h.compareThreshold ==> rng.isDivided
+//@ func (*hashRanges).removeElement
+//@   assumes h != nil && h.topRange != nil
+//@   modifies fields hashRange.elements hashRange.isDivided
+//@   modifies kinds map:map[*ldiff.hashRange]struct{} map:map[ldiff.rangeTuple]*ldiff.hashRange
+//@   sets rangeNet = rangeNet - 1
+//@   ensures [merged_up_to_threshold] rng.parent == h.topRange || rng.parent.elements > h.compareThreshold
+//@   ensures [ends_in_a_leaf] !rng.isDivided
+//@   loop 1:
+//@     invariant parent == rng.parent && !rng.isDivided
+
+//@ func (*diff).Set
+//@   requires d != nil && d.sl != nil && d.ranges != nil
+//@   ensures [counts_track_contents] rangeNet - old(rangeNet) == slNet - old(slNet)
+//@   loop 0:
+//@     invariant -1 <= rangeindex && rangeindex < len(elements)
+//@     invariant rangeNet - old(rangeNet) == slNet - old(slNet) && d.sl != nil && d.ranges != nil
+//@ func (*diff).RemoveId
+//@   requires d != nil && d.sl != nil && d.ranges != nil
+//@   ensures [counts_track_contents] rangeNet - old(rangeNet) == slNet - old(slNet)
